@@ -185,7 +185,11 @@ pub fn run_grad_px(l: &[i128]) -> Vec<i128> {
     } else {
         pm.fill_rect(Rect::from_ltrb(-500.0, -500.0, 500.0, 500.0).unwrap(), &paint, canvas, None);
     }
-    if solid {
+    // "start and end are very close" (documented as a solid colour) is decided by DEGENERATE_THRESHOLD = 1/32768, chosen
+    // (see its comment) because gradients a few 1e-5 units long occur in practice: a linear gradient clearly longer than
+    // that is judged as a gradient even when a solid colour came back
+    let lin_len = (((x1 - x0) as f64).powi(2) + ((y1 - y0) as f64).powi(2)).sqrt();
+    if solid && !(kind == 0 && stops.len() >= 2 && lin_len > 4.0e-5) {
         return vec![0, 0, 0, 0, 0, 0, 0, 0, 0, 1];
     }
     // reference
